@@ -61,9 +61,11 @@ Lemma h_count_skeleton : forall l1 l2 : list (Z * atom),
   List.length (filter is_h l1) = List.length (filter is_h l2).
 Proof.
   induction l1 as [|[k a] l1 IH]; intros [|[k' a'] l2] H; try discriminate; [reflexivity|].
-  cbn [map fst snd] in H. inversion H as [[Hk Hn Hi Hrest]]. cbn [filter].
-  assert (E : is_h (k, a) = is_h (k', a')) by (unfold is_h; cbn [snd]; rewrite Hn; reflexivity). rewrite E.
-  destruct (is_h (k', a')); cbn [List.length]; rewrite (IH l2 Hrest); reflexivity.
+  cbn [map fst snd] in H. injection H as Hk Hn Hi Hrest.
+  assert (E : is_h (k, a) = is_h (k', a')) by (unfold is_h; cbn [snd]; rewrite Hn; reflexivity).
+  change (filter is_h ((k, a) :: l1)) with (if is_h (k, a) then (k, a) :: filter is_h l1 else filter is_h l1).
+  change (filter is_h ((k', a') :: l2)) with (if is_h (k', a') then (k', a') :: filter is_h l2 else filter is_h l2).
+  rewrite E. destruct (is_h (k', a')); cbn [List.length]; rewrite (IH l2 Hrest); reflexivity.
 Qed.
 Lemma h_atoms_skeleton g g' : skeleton g' = skeleton g -> h_atoms (m_atoms g') = h_atoms (m_atoms g).
 Proof. intros H. unfold h_atoms. f_equal. apply h_count_skeleton. exact H. Qed.
